@@ -721,7 +721,7 @@ class ModelHist(Engine):
     def gen_vocab(self, rw):
         types, objs = gen_types(rw)
         tnames = [t for t, _ in types]
-        fluents = gen_fluents(rw, types, rw.randint(4, 7), kinds=("bool", "bool", "int", "real", "user", "uint", "breal", "fbreal"))
+        fluents = gen_fluents(rw, types, rw.randint(4, 7), kinds=("bool", "bool", "int", "real", "user", "uint", "breal", "fbreal", "ubint", "lbint"))
         fluents[0]["type"] = ["bool"]
         fluents[1]["type"] = ["int", 0, 5]
         fluents[2]["type"] = ["user", "T"]
